@@ -64,3 +64,21 @@ package t_api
 //@ abstract-calls force ^Encode
 //@ requires c != nil
 //@ ensures result1 == nil ==> calls("Encode") == 1 && jsonstr(result0) == callres("Encode", 0, 0)
+
+// Whether a cursor is accepted depends on its signature only (C14: every cursor the server has issued can be
+// followed, whenever and on whichever replica): the claims carry no validity of their own - no expiry, no
+// issue time compared with the clock.
+//@ func (*Claims[SearchPromisesRequest]).Valid[SearchPromisesRequest]
+//@ props C14
+//@ nopanic C13
+//@ abstract-calls external
+//@ ensures result == nil
+
+// Whether a cursor is accepted depends on its signature only (C14: every cursor the server has issued can be
+// followed, whenever and on whichever replica): the claims carry no validity of their own - no expiry, no
+// issue time compared with the clock.
+//@ func (*Claims[SearchSchedulesRequest]).Valid[SearchSchedulesRequest]
+//@ props C14
+//@ nopanic C13
+//@ abstract-calls external
+//@ ensures result == nil
